@@ -844,6 +844,26 @@ impl<'a, 'b, 'ast> Visit<'ast> for BodyV<'a, 'b> {
         self.fc.errors.push(format!("unit {}: macro {name}! is not covered by any rule", self.outer_name));
     }
 
+    fn visit_item_use(&mut self, u: &'ast ItemUse) {
+        // R1 on a `use` inside a function body
+        fn root_ident(t: &UseTree) -> Option<&Ident> {
+            match t {
+                UseTree::Path(p) => Some(&p.ident),
+                UseTree::Name(n) => Some(&n.ident),
+                UseTree::Rename(n) => Some(&n.ident),
+                _ => None,
+            }
+        }
+        if u.leading_colon.is_none() {
+            if let Some(id) = root_ident(&u.tree) {
+                if self.fc.cfg.roots.contains(&id.to_string()) {
+                    let (a, _) = br(id.span());
+                    self.fc.edit_ord(a, a, "crate::shims::", "R1.use", -5);
+                }
+            }
+        }
+    }
+
     fn visit_item_fn(&mut self, f: &'ast ItemFn) {
         // nested fn inside a unit body
         let key = format!("{}/{}", self.outer_name, f.sig.ident);
